@@ -102,8 +102,8 @@ Proof.
     + reflexivity.
 Qed.
 
-Lemma sw_wire full x w r : wire_ok w -> sspre x = wire_text w ++ r ->
-  evals GS full 23 true (At x) (POk (At r) [wire_tree w]).
+Lemma sw_wire full (cp : bool) x w r : wire_ok w -> (if cp then sspre x else x) = wire_text w ++ r ->
+  evals GS full 23 cp (At x) (POk (At r) [wire_tree w]).
 Proof.
   intros (Hn & Hm & Hb1 & Hb2 & Hb3 & Hb4 & Hb5) Hx. pose proof Hn as (Hn0 & Hns).
   unfold wire_text, num_text in Hx. revert Hx. norm_text. intros Hx.
@@ -112,7 +112,7 @@ Proof.
   destruct Hm0 as (md & mz & Em & Hmd).
   eapply evals_eq.
   - eapply evals_node_ok; [slk|apply (pre_premise GS full ssw_c WSs ssw_comment_ok); repeat split|].
-    unfold pre_pos. cbn [andb ncallpre]. rewrite Hx.
+    unfold pre_pos. cbn [ncallpre]. rewrite andb_true_r, Hx.
     eapply impls_wrap; [reflexivity|reflexivity|].
     eapply evals_node_ok; [slk|cbn; reflexivity|].
     eapply impls_and; [reflexivity|reflexivity| |].
@@ -222,7 +222,7 @@ Proof.
   destruct (seqs_inp_head full x y (wire_text w ++ E ++ k) Hx Hy) as (r & Hr & Hseq).
   apply Hseq.
   eapply seqs_cons; [|apply seqs_nil].
-  apply (sw_wire full r w (E ++ k) Hw). rewrite Hr.
+  apply (sw_wire full true r w (E ++ k) Hw). rewrite Hr.
   unfold wire_text. cbn [app]. apply (std_pre_stop WSs); reflexivity.
 Qed.
 
